@@ -48,6 +48,9 @@ var polluters = []struct{ name, src string }{
 	{"env-itself", `_ = null; return {};`},
 	{"throws-after-pollution", `leak = 2; Object.prototype.polluted = "yes"; _.props.a.b = 5; throw new Error("x");`},
 	{"freeze", `Object.freeze(Object.prototype); Object.freeze(Array.prototype); return _.bindings;`},
+	{"helper-result-edited", `var r = _.match({"a":"?x"}, {"a":"tacos"}, {}); r[0]["?x"] = "chips"; r[0].planted = true; r.push({"more": 1}); return _.bindings;`},
+	{"helper-replaced", `_.match = function() { return "hijacked"; }; _.randstr = null; return _.bindings;`},
+	{"helper-args-edited", `var p = {"a":"?x"}; var m = {"a":"tacos"}; var b = {}; var r = _.match(p, m, b); p.a = 1; m.a = 2; b.z = 3; return _.bindings;`},
 	{"define-getter", `Object.defineProperty(Object.prototype, "sneaky", {get: function() { return 1; }}); return _.bindings;`},
 }
 
@@ -70,6 +73,9 @@ r.frozen = Object.isFrozen(Object.prototype);
 function sorted(o) { if (o === null || typeof o !== 'object') { return o; } if (Array.isArray(o)) { return o.map(sorted); } var ks = Object.keys(o).sort(); var n = {}; for (var i = 0; i < ks.length; i++) { if (ks[i] !== 'ctx') { n[ks[i]] = sorted(o[ks[i]]); } } return n; }
 r.bs = JSON.stringify(sorted(_.bindings));
 r.props = JSON.stringify(sorted(_.props));
+r.helper = typeof _.match;
+r.match = JSON.stringify(sorted(_.match({"a":"?x"}, {"a":"tacos"}, {})));
+r.match2 = JSON.stringify(sorted(_.match({"a":"?x","b":"?y"}, {"a":"tacos","b":[1,{"c":2}]}, {"?y":[1,{"c":2}]})));
 return r;
 `
 
@@ -147,7 +153,10 @@ var (
 
 func isoSetup() {
 	isoOnce.Do(func() {
+		// the extended interpreter (mcrew's "goja"/"ecmascript-ext"): the
+		// plain one plus helper functions in the environment object
 		isoInterp = ecmascript.NewInterpreter()
+		isoInterp.Extended = true
 		ctx := context.Background()
 		for _, p := range polluters {
 			c, err := isoInterp.Compile(ctx, p.src)
@@ -165,6 +174,7 @@ func isoSetup() {
 		// baseline: the probe on a fresh interpreter, nothing run before
 		for mode := 0; mode < 3; mode++ {
 			fresh := ecmascript.NewInterpreter()
+			fresh.Extended = true
 			exe, err := fresh.Exec(ctx, inputBindings(), inputPropsMode(mode), probeSrc, nil)
 			if err != nil {
 				isoErr = fmt.Errorf("probe fails on a fresh interpreter: %v", err)
@@ -271,6 +281,6 @@ func checkIso(c IsoCase) (v ev.Verdict) {
 
 func TestC10Isolation(t *testing.T) {
 	ev.Run(t, ev.Opts{Property: "C10", Name: "isolation", Quick: 3000, Thorough: 150000, Journal: true,
-		Rule: "sequences (and 2-16 goroutine interleavings) of polluter scripts (in-place mutation of bindings and props at depth, globals, prototype and built-in patches, replacing members of the environment object) and a probe script on one interpreter with pre-compiled sources; caller's bindings/props snapshots must be unchanged and every probe result must equal the probe's result on a fresh interpreter; non-trivial = a probe ran after or beside at least one polluter"},
+		Rule: "sequences (and 2-16 goroutine interleavings) of polluter scripts (in-place mutation of bindings and props at depth, globals, prototype and built-in patches, replacing members of the environment object, editing the results and arguments of the extended interpreter's helpers) and a probe script on one interpreter with pre-compiled sources; caller's bindings/props snapshots must be unchanged and every probe result must equal the probe's result on a fresh interpreter; non-trivial = a probe ran after or beside at least one polluter"},
 		genIso, checkIso)
 }
